@@ -25,10 +25,11 @@ CHECK = {
   ],
   'bounds': {
     'quick': '4x4: all 43046721 matrices over {-1,0,1}, det(A*B) with 1 fixed B; 3x3: all 19683 + 1953125; 3^18 3x3 pairs; 4e5 GF(2^61-1) points; '
-             'solve: GF(2) n<=4, GF(3) n<=3, GF(5) n<=3, GF(7) n=2 all systems; P*U/P*L*U all permutations n<=6, structured n<=12; lsq integer grids 2x1,3x1,3x2,4x2,5x2; '
-             'float: 3x3 over {-2..2}, 4x4 over {0,1}, families n<=12; rotations: 15 deg grid (24^3) x 24 conventions, quaternions {-3..3}^4, 124 axes x 49 angles',
-    'thorough': 'as quick plus det(A*B) with 3 fixed B, 4e6 GF points; GF(7) 3x3, GF(2) 5x5, GF(3) 4x4 all systems; permutations n<=8; lsq 4x3, 5x3, 4x2 over {-2..2}; '
-                'float 4x4 over {-1,0,1}; rotations: 7.5 deg grid (48^3) x 24 conventions, quaternions {-5..5}^4, 97 angles'},
+             'solve: all systems over GF(2) n<=4, GF(3) n<=3, GF(5) n<=3, GF(7) n=2; P*U/P*L*U all permutations n<=6, structured n<=12; lsq integer grids 2x1,3x1 over {-2..2}, 3x2 over {-1,0,1} and {-2..2}, 4x2, 5x2 over {-1,0,1}; '
+             'float+double: 3x3 over {-2..2}, 4x4 over {0,1}, families n<=12 (all row permutations n<=6); rotations: 15 deg grid (24^3) x 24 conventions (moving-frame sources converted to everything, '
+             'fixed-frame sources bit-identical to them), quaternions {-3..3}^4, 124 axes x 49 angles, each x {float,double}',
+    'thorough': 'as quick plus det(A*B) with 3 fixed B, 4e6 GF points; all 5x5 systems over GF(2); permutations n<=8 (float n<=7); lsq 4x3 over {-1,0,1}, 4x2 over {-2..2}; '
+                'double solve(A, I) for all 4x4 over {-1,0,1}; rotations: 7.5 deg grid (48^3) x 24 conventions, quaternions {-5..5}^4, 97 angles'},
   'assumptions': ['g++ -O2; exact side in 64-bit integers / GF(p) with 128-bit products; reference rotations in x87 long double',
                   'residual bound c = 8 (inverse, solve), kappa_inf from the exact adjugate resp. a long-double full-pivoting inverse; only systems with kappa*eps < 1/64 count as well-conditioned',
                   'rotation tolerance 16 eps (to matrix/quaternion), 64 eps x conditioning (back to angles / axis-angle); rotations compared by max-abs matrix distance, never by angle triples',
